@@ -24,47 +24,55 @@ SEV_HANDLER(ev)
     r.set("vs", vs);
 }
 
-// Number-level double dispatch: {"op":"numop","f":"add|sub|mul|div|pow|rsub|rdiv|rpow","a":lit,"b":lit}
-// -> r.v: a->f(b) through the Number virtuals, r.w: the Basic-level function
+// Number arithmetic through both entry points and in both operand orders:
+// {"op":"numop","f":"add|sub|mul|div|pow","a":lit,"b":lit}
+//  r.v  = a->f(b)  (Number virtuals, double dispatch)   r.ve = exception
+//  r.w  = f(a, b)  (Basic-level function)               r.we
+//  r.x  = b->f(a), r.y = f(b, a)  (reversed operands)   r.xe, r.ye
+static RCP<const Number> num_apply(const std::string &f,
+                                   const RCP<const Number> &a,
+                                   const RCP<const Number> &b)
+{
+    if (f == "add")
+        return a->add(*b);
+    if (f == "sub")
+        return a->sub(*b);
+    if (f == "mul")
+        return a->mul(*b);
+    if (f == "div")
+        return a->div(*b);
+    if (f == "pow")
+        return a->pow(*b);
+    throw std::runtime_error("numop: bad f");
+}
+static RCP<const Basic> basic_apply(const std::string &f,
+                                    const RCP<const Basic> &a,
+                                    const RCP<const Basic> &b)
+{
+    if (f == "add")
+        return add(a, b);
+    if (f == "sub")
+        return sub(a, b);
+    if (f == "mul")
+        return mul(a, b);
+    if (f == "div")
+        return div(a, b);
+    if (f == "pow")
+        return pow(a, b);
+    throw std::runtime_error("numop: bad f");
+}
 SEV_HANDLER(numop)
 {
     RCP<const Number> a = build_num(c.at("a"));
     RCP<const Number> b = build_num(c.at("b"));
     const std::string &f = c.at("f").s;
-    J v = term("Null"), w = term("Null");
-    std::string e1 = guarded([&] {
-        RCP<const Number> x;
-        if (f == "add")
-            x = a->add(*b);
-        else if (f == "sub")
-            x = a->sub(*b);
-        else if (f == "mul")
-            x = a->mul(*b);
-        else if (f == "div")
-            x = a->div(*b);
-        else if (f == "pow")
-            x = a->pow(*b);
-        else
-            throw std::runtime_error("numop: bad f");
-        v = dump(x);
-    });
-    std::string e2 = guarded([&] {
-        RCP<const Basic> x;
-        RCP<const Basic> a = build(c.at("a")), b = build(c.at("b"));
-        if (f == "add")
-            x = add(a, b);
-        else if (f == "sub")
-            x = sub(a, b);
-        else if (f == "mul")
-            x = mul(a, b);
-        else if (f == "div")
-            x = div(a, b);
-        else
-            x = pow(a, b);
-        w = dump(x);
-    });
+    J v = term("Null"), w = term("Null"), x = term("Null"), y = term("Null");
+    r.set("ve", guarded([&] { v = dump(num_apply(f, a, b)); }));
+    r.set("we", guarded([&] { w = dump(basic_apply(f, a, b)); }));
+    r.set("xe", guarded([&] { x = dump(num_apply(f, b, a)); }));
+    r.set("ye", guarded([&] { y = dump(basic_apply(f, b, a)); }));
     r.set("v", v);
-    r.set("ve", e1);
     r.set("w", w);
-    r.set("we", e2);
+    r.set("x", x);
+    r.set("y", y);
 }
